@@ -694,6 +694,10 @@ func (c *codegen) call2(k fnKey, recv ast.Expr, x *ast.CallExpr) ([]string, []gt
 			c.fail(a, "argument %d of %s has type %s, want %s", i+1, fnName(k), t, pt)
 		}
 		parts = append(parts, paren(s))
+		if c.phase5 && pt.kind == kGSlice && !sig.params[i].out && c.consumedParam(c.fns[k], sig.params[i].name) && !c.consumedArgOK(a) {
+			// code_osap.go
+			c.fail(a, "argument %d of %s is consumed by the callee (appended to and handed back): only `X.f[:0]` with f a scratch field (every occurrence of .f in the package is `X.f[:0]`)", i+1, fnName(k))
+		}
 		if pt.kind == kIface && !sig.params[i].out {
 			c.ifaceMoved(a, x) // the callee keeps the value (it does not hand its state back)
 		}
@@ -1109,6 +1113,9 @@ func (c *codegen) loopStmt(x ast.Stmt, bodyStmt *ast.BlockStmt, rest []ast.Stmt,
 					rd = "GSlice.index " + c.zeroTyped(et, x) + " " + paren(cur) + " " + idxVar
 				}
 				body = append(body, "Res.bind ("+rd+") fun "+elemVar+" =>")
+				if et.kind == kGSlice || et.kind == kBytes || c.containsGSlice(et, x) {
+					c.checkReadOnlyElemSlice(rx, bodyStmt) // code_osap.go: an element of a slice of slices shares its array with the element
+				}
 				bindIter(rx.Value, elemVar, et)
 			}
 		} else {
